@@ -19,6 +19,9 @@ out of the roundtrip metadata) are all written by import_commit; the mergetag ke
 (b) roundtrip.py: the line keys emitted by generate_roundtripping_metadata equal the keys accepted by
 parse_roundtripping_metadata (which raises on anything else), including the property- prefix; the metadata separator
 literal is the same in inject_bzr_metadata and extract_bzr_metadata.
+Added while testing against seeded changes: Also: each commit field is restored from its own property key only; the
+decode helper retried with another encoding writes its outputs before reading them; encoding header values
+import_commit does not use as a codec ('false') are not used as a codec by export_commit.
 Does not decide: byte identity of the exported commit (values, encodings, timezones).
 """
 READ_EXCEPTIONS = {"author": "read through rev.get_apparent_authors()"}
